@@ -249,22 +249,27 @@ def random_configs(pid, tier, seed):
         base.append(dict(c=consts(MaxP=2, Mss=4, SendCap=16, RecvCap=16, Backlog=1), mode="lomss", nconn=1, maxdrops=0, maxage=0,
                          maxbytes=100, wmax=12, rmax=16, steps=0, prop_only=1))
     if pid == "C13":
-        base.append(dict(c=consts(MaxP=1, Mss=2, SendCap=4, RecvCap=4, Backlog=1, RetxT=2, RetxMax=2, PremD=1), mode="simclose", nconn=1,
-                         maxdrops=1, maxage=0, maxbytes=4, wmax=2, rmax=2, steps=0, closeprob=80, wild=2))
-        base.append(dict(c=consts(MaxP=1, Mss=2, SendCap=4, RecvCap=4, Backlog=1, RetxT=2, RetxMax=2, PremD=1), mode="hsackloss", nconn=1,
-                         maxdrops=1, maxage=0, maxbytes=2, wmax=2, rmax=2, steps=0))
-        # more overlapping handshakes than the backlog, partly full accept queue, no accept until the end
-        base.append(dict(c=consts(MaxP=4, Mss=2, SendCap=4, RecvCap=4, Backlog=2, RetxT=3, RetxMax=2, PremD=0), mode="backlog", nconn=4,
+        # directed choreographies, grouped by kernel constants so that one recorded file (and one pair of
+        # TLC runs) serves several of them; the runs cycle through the listed modes
+        # - simclose: crossing closes (mostly drops of the streams), wildcard or specific listener
+        # - hsackloss: one lost handshake segment, idle connector, acceptor speaks first
+        # - closeinflight: shutdown / drop while written bytes are still unacknowledged, the peer reads to the end and closes
+        base.append(dict(c=consts(MaxP=1, Mss=2, SendCap=4, RecvCap=4, Backlog=1, RetxT=2, RetxMax=2, PremD=1), mode="simclose+hsackloss+closeinflight",
+                         nconn=1, maxdrops=1, maxage=0, maxbytes=4, wmax=2, rmax=2, steps=0, closeprob=80, wild=2, nmodes=3))
+        # - backlog: more overlapping handshakes than the backlog, partly full accept queue, no accept until the end
+        # - deadhs: `backlog` handshakes die at the listener (cancelled connects), quiet wire, then one more connect
+        # - acceptwake: accept futures with their own wakers, earlier ones polled once and dropped, a later one parked
+        base.append(dict(c=consts(MaxP=4, Mss=2, SendCap=4, RecvCap=4, Backlog=2, RetxT=2, RetxMax=1, PremD=0), mode="backlog+deadhs+acceptwake",
+                         nconn=4, maxdrops=0, maxage=0, maxbytes=2, wmax=2, rmax=2, steps=0, nmodes=3))
+        base.append(dict(c=consts(MaxP=3, Mss=2, SendCap=4, RecvCap=4, Backlog=1, RetxT=3, RetxMax=2, PremD=0), mode="deadhs", nconn=3,
                          maxdrops=0, maxage=0, maxbytes=2, wmax=2, rmax=2, steps=0))
-        # accept futures with their own wakers: earlier ones polled once and dropped, a later one parked
-        base.append(dict(c=consts(MaxP=2, Mss=2, SendCap=4, RecvCap=4, Backlog=2, RetxT=2, RetxMax=1, PremD=0), mode="acceptwake", nconn=2,
-                         maxdrops=0, maxage=0, maxbytes=2, wmax=2, rmax=2, steps=0))
+        # - lsndrop: the listener (wildcard or specific) is dropped at a seeded point of handshakes in flight
         base.append(dict(c=consts(MaxP=2, Mss=2, SendCap=4, RecvCap=4, Backlog=2, RetxT=3, RetxMax=2, PremD=0, PremAge=1), mode="lsndrop",
                          nconn=2, maxdrops=0, maxage=1, maxbytes=2, wmax=2, rmax=2, steps=0, wild=2))
     out = []
     for i, b in enumerate(base):
         b = dict(b)
-        b["runs"] = runs * (2 if b.get("mode") else 1)
+        b["runs"] = runs * (2 if b.get("mode") else 1) * b.pop("nmodes", 1)
         b["seed"] = seed * 131 + i
         out.append(b)
     return out
@@ -536,7 +541,7 @@ def run(pid, tier, seed, replay=None):
     for i, rc in enumerate(rcs):
         c = rc["c"]
         tpath = os.path.join(w, f"random_{i}.ndjson")
-        args = ["random"] + [f"{k}={v}" for k, v in rc.items() if k not in ("c", "prop_only")] + harness_args(c)
+        args = ["random"] + [f"{k}={v}" for k, v in rc.items() if k not in ("c", "prop_only", "nmodes")] + harness_args(c)
         out = vlib.run_driver("ktcp", args + [f"out={tpath}"])
         payload = {"kind": "random", "property": pid, "args": args, "consts": jsonable(c)}
         okp, drift = judge_trace(ck, pid, tpath, c, f"{pid}_rnd{i}", payload, known_state, impl=not rc.get("prop_only"))
